@@ -4,7 +4,8 @@ CONSTANTS
   MsgLimit = 2
   PropLimit = 1
   MaxRestarts = 1
-  Deviations = {}
+  MaxTimeouts = 2
+  Mode = "fixed"
 INVARIANTS ExactlyOnceInOrder
 PROPERTIES IndexMonotone Converges
 CHECK_DEADLOCK FALSE
